@@ -35,14 +35,33 @@ Theorem C01_fragment_script_never_panics : forall ts,
 Proof. exact script_never_panics. Qed.
 Print Assumptions C01_fragment_script_never_panics.
 
-(* C01_fragment_no_out_of_fuel_partial: NOT proved here.
-   Full statement:  forall ts, parse_model ts <> OutOfFuel   (fuel_for ts = 8 * length ts + 16).
-   Argument (not mechanised): every recursive call of the mutual block and every loop iteration
-   happens after at least one token was consumed, except parse_select_with_union -> parse_select ->
-   parse_expr, a chain of constant length; 3 * remaining + 3 units suffice for each function.
-   Evidence: the correspondence driver prints FUEL for this outcome; it never occurred
-   (> 250000 generated statements, valid and malformed).  All theorems above hold for EVERY fuel, so
-   they do not depend on this bound. *)
+(* the fuel is sufficient: with fuel >= 3 * length ts + 2 -- in particular with the
+   fuel_for ts = 8 * length ts + 16 that parse_model supplies -- the model never returns OutOfFuel;
+   hence parse_model always returns Ok or OutOfFragment *)
+Theorem C01_fragment_fuel_enough : forall fuel ts,
+  (3 * List.length ts + 2 <= fuel)%nat -> parse_model_fuel fuel ts <> OutOfFuel.
+Proof. exact parse_model_fuel_enough. Qed.
+Print Assumptions C01_fragment_fuel_enough.
+
+Theorem C01_fragment_no_out_of_fuel : forall ts, parse_model ts <> OutOfFuel.
+Proof. exact parse_model_no_out_of_fuel. Qed.
+Print Assumptions C01_fragment_no_out_of_fuel.
+
+Theorem C01_fragment_script_no_out_of_fuel : forall ts, parse_script ts <> OutOfFuel.
+Proof. exact parse_script_no_out_of_fuel. Qed.
+Print Assumptions C01_fragment_script_no_out_of_fuel.
+
+(* together: the parser model is total -- Ok or OutOfFragment, nothing else *)
+Theorem C01_fragment_parse_model_total : forall ts,
+  (exists r, parse_model ts = Ok r) \/ (exists o, parse_model ts = OutOfFragment o).
+Proof.
+  intros ts. pose proof (parse_model_no_out_of_fuel ts) as Hf.
+  pose proof (parse_never_panics (fuel_for ts) ts) as Hp. unfold parse_model in *.
+  destruct (parse_model_fuel (fuel_for ts) ts) as [r|p|o|]; [left; eauto| |right; eauto|].
+  - exfalso. exact (Hp p eq_refl).
+  - exfalso. exact (Hf eq_refl).
+Qed.
+Print Assumptions C01_fragment_parse_model_total.
 
 (* ---- examples: inputs that make the Go code walk along the modelled nil paths ---- *)
 
